@@ -162,6 +162,10 @@ func mutantsOf(o *Out, text string, everyOffset bool) []mutant {
 		}
 		add("declared-length", strings.Replace(text, m[2]+" bp", "-"+m[2]+" bp", 1))
 		add("declared-length", strings.Replace(text, m[2]+" bp", "99999999999999999999 bp", 1))
+		// lengths far beyond the input: the reader must not size anything from them
+		for _, huge := range []string{"1000000000", "1000000000000000", "4611686018427387904", "9223372036854775807"} {
+			add("declared-length", strings.Replace(text, m[2]+" bp", huge+" bp", 1))
+		}
 	}
 	// locus spacing: the indent depth every later field must match
 	for _, d := range []int{1, 3, 5, 6, 11, 13, 20} {
